@@ -600,7 +600,7 @@ theorem step_insts_other (σ : State) (i : InstId) (x : Inst) (hx : σ.insts[i]?
   | subclass p => simp only [step]; split <;> exact hx
   | subclassMI t => simp only [step]; split <;> exact hx
   | usingProps p init => simp only [step]; split <;> exact hx
-  | usingShared p ow =>
+  | usingShared p ow init =>
     simp only [step]; split
     · split <;> exact hx
     · exact hx
@@ -687,10 +687,11 @@ def CmdOK : Cmd → Prop
   | .subclassMI tail => tail.Nodup
   | _ => True
 
-/-- the command does not hand one `Properties` object to a second class -/
-def NoSharing : Cmd → Prop
-  | .usingShared _ _ => False
-  | _ => True
+/-- formerly "the command does not hand one `Properties` object to a second class" (KF-C17-b).
+    Since /repo 936c1b4 handing the same `Properties` object to a second class shares nothing
+    (each class gets a copy of its initial mapping), so no command is excluded any more: the
+    predicate is kept, as `True`, for the statements that carried it as a hypothesis. -/
+def NoSharing : Cmd → Prop := fun _ => True
 
 theorem WF_classOp (σ : State) (hwf : WF σ) (v : ClassId) (o : Op) : WF (classOp σ v o).1 := by
   rcases classOp_state' σ v o with e | ⟨d, f, hv, hd, e⟩ <;> rw [e]
@@ -725,12 +726,10 @@ theorem WF_step (σ : State) (hwf : WF σ) (cmd : Cmd) (hok : CmdOK cmd) : WF (s
     simp only [step]; split
     · exact WF_usingPropsStep σ hwf p init
     · exact hwf
-  | usingShared p ow =>
+  | usingShared p ow init =>
     simp only [step]; split
     · split
-      · rename_i d hd
-        exact WF_addClass σ hwf _ (some d) (fun x hx => hwf.mro_lt p x hx) (hwf.mro_nodup p)
-          (fun d' h => by simp only [Option.some.injEq] at h; subst h; exact hwf.own_lt ow _ hd)
+      · exact WF_usingPropsStep σ hwf p init
       · exact hwf
     · exact hwf
   | withProps p ps =>
@@ -807,7 +806,12 @@ theorem NoShared_step (σ : State) (hwf : WF σ) (hs : NoShared σ) (cmd : Cmd) 
     simp only [step]; split
     · exact NoShared_usingPropsStep σ hwf hs p init
     · exact hs
-  | usingShared p ow => exact absurd hn (by simp [NoSharing])
+  | usingShared p ow init =>
+    simp only [step]; split
+    · split
+      · exact NoShared_usingPropsStep σ hwf hs p init
+      · exact hs
+    · exact hs
   | withProps p ps =>
     simp only [step]; split
     · exact NoShared_classOp _ (NoShared_addClass σ hs _ none (by simp)) _ _
@@ -952,9 +956,9 @@ theorem step_untouched (σ : State) (hwf : WF σ) (hs : NoShared σ) (W : View) 
   | subclassMI tail => simp only [step]; split <;> first | exact visible_addClass σ hwf _ _ W hW | rfl
   | usingProps p init =>
     simp only [step]; split <;> first | exact visible_usingPropsStep σ hwf p init W hW | rfl
-  | usingShared p ow =>
+  | usingShared p ow init =>
     simp only [step]; split
-    · split <;> first | exact visible_addClass σ hwf _ _ W hW | rfl
+    · split <;> first | exact visible_usingPropsStep σ hwf p init W hW | rfl
     · rfl
   | withProps p ps =>
     simp only [step]; split
@@ -1003,9 +1007,9 @@ theorem length_mono (σ : State) (cmd : Cmd) :
   | subclass p => simp only [step]; split <;> simp [addClass]
   | subclassMI tail => simp only [step]; split <;> simp [addClass]
   | usingProps p init => simp only [step]; split <;> simp [usingPropsStep, addClass]
-  | usingShared p ow =>
+  | usingShared p ow init =>
     simp only [step]; split
-    · split <;> simp [addClass]
+    · split <;> simp [usingPropsStep, addClass]
     · simp
   | withProps p ps =>
     simp only [step]; split
@@ -1254,12 +1258,16 @@ def kS : Key := ['s']
 def kT : Key := ['t']
 def kB : Key := ['b']
 
-/-- KF-C17-b: one `Properties` object handed to a second class — a write through the new class
-    shows through the class that owned the object first -/
-def witnessShared : List Cmd := [.usingShared 0 0, .op (.cls 1) (.setitem kT (.int 2))]
+/-- former KF-C17-b (closed by /repo 936c1b4): one `Properties` object handed to a second class.
+    A write through the new class no longer shows through the class that held the object first,
+    and the new class starts from the initial mapping the object was built with. -/
+def witnessShared : List Cmd :=
+  [.op (.cls 0) (.setitem kB (.int 9)), .usingShared 0 0 [(kS, .int 1)], .op (.cls 1) (.setitem kT (.int 2))]
 
-theorem C17_full_fails_shared :
-    visible (run (initState [(kS, .int 1)]) witnessShared).1 (.cls 0) kT = some (.int 2) ∧
+theorem shared_object_shares_nothing :
+    visible (run (initState [(kS, .int 1)]) witnessShared).1 (.cls 0) kT = none ∧
+    visible (run (initState [(kS, .int 1)]) witnessShared).1 (.cls 1) kS = some (.int 1) ∧
+    visible (run (initState [(kS, .int 1)]) witnessShared).1 (.cls 1) kB = none ∧
     Spec.visible (Spec.run (abs (initState [(kS, .int 1)])) witnessShared) (.cls 0) kT = none := by
   decide
 
@@ -1805,11 +1813,11 @@ theorem AllCoherent_step (σ : State) (hwf : WF σ) (hco : AllCoherent σ) (cmd 
     · exact AllCoherent_extend σ (usingPropsStep σ p init) hwf _ (some σ.ndesc) rfl hco
         (Coherent_new_some σ _ _ σ.ndesc rfl)
     · exact hco
-  | usingShared p ow =>
+  | usingShared p ow init =>
     simp only [step]; split
     · split
-      · rename_i d _
-        exact AllCoherent_extend σ _ hwf _ (some d) rfl hco (Coherent_new_some σ _ _ d rfl)
+      · exact AllCoherent_extend σ (usingPropsStep σ p init) hwf _ (some σ.ndesc) rfl hco
+          (Coherent_new_some σ _ _ σ.ndesc rfl)
       · exact hco
     · exact hco
   | withProps p ps =>
@@ -1870,7 +1878,22 @@ theorem refine_step (σ : State) (h : Inv σ) (cmd : Cmd) (hg : cmdGuard σ cmd 
     simp only [step, Spec.step, hnc]; split
     · exact abs_usingPropsStep σ hwf p init
     · rfl
-  | usingShared p ow => exact absurd hn (by simp [NoSharing])
+  | usingShared p ow init =>
+    simp only [step, Spec.step, hnc]
+    by_cases hp : p < σ.classes.length
+    · cases ho : σ.ownOf ow with
+      | none => simp [hp, abs, ho]
+      | some d =>
+        have hlt : ow < σ.classes.length := by
+          rcases Nat.lt_or_ge ow σ.classes.length with h' | h'
+          · exact h'
+          · rw [ownOf_ge σ ow h'] at ho; exact absurd ho (by simp)
+        have hcond : p < σ.classes.length ∧ (abs σ).fresh ow = true ∧ ow < σ.classes.length :=
+          ⟨hp, by simp [abs, ho], hlt⟩
+        simp only [hp, if_true]
+        rw [if_pos ⟨trivial, hcond.2.1, hcond.2.2⟩]
+        exact abs_usingPropsStep σ hwf p init
+    · simp [hp]
   | withProps p ps =>
     simp only [step, Spec.step, hnc]; split
     · rename_i hp
@@ -1979,8 +2002,10 @@ theorem c17_histories_partial : C17_Partial := fun init cmds v k hg =>
     negation witnesses is rejected by it -/
 theorem histGuard_rejects_witnesses :
     histGuard (initState []) witnessClear = false ∧
-    histGuard (initState [(kS, .int 1)]) witnessShared = false ∧
     histGuard (initState []) witnessMI = false := by decide
+
+/-- … and a history that hands one `Properties` object to a second class passes it (KF-C17-b closed) -/
+theorem histGuard_accepts_shared : histGuard (initState [(kS, .int 1)]) witnessShared = true := by decide
 
 /-! ### what the methods return along a history -/
 
@@ -2133,7 +2158,6 @@ theorem c17_results_partial (init : List (Key × Val)) (pre : List Cmd)
 theorem witnesses_trip_own_guard :
     (witnessClear.all (fun c => decide (CmdOK c) && decide (NoSharing c)) = true ∧
       badClear (run (initState []) (witnessClear.take 3)).1 (.op (.inst 0) .clear) = true) ∧
-    (witnessShared.all (fun c => decide (CmdOK c)) = true ∧ ¬ NoSharing (.usingShared 0 0)) ∧
     (witnessMI.all (fun c => decide (CmdOK c) && decide (NoSharing c)) = true ∧
       miGuard (run (initState []) (witnessMI.take 3)).1 (.subclassMI [1, 2, 0]) = false) := by decide
 
